@@ -98,6 +98,11 @@ type pairFinding struct {
 func isRestoreSource(p *an.Prog, f *an.Fn, e ast.Expr, field string) (types.Object, bool) {
 	id, ok := an.Unparen(e).(*ast.Ident)
 	if !ok {
+		// saved.k — a local struct that carries the saved values (one composite literal, possibly built by a
+		// helper), seen directly or through the parameter of a helper it was handed to
+		if o, _, ok := savedStructField(p, f, e, field); ok {
+			return o, true
+		}
 		return nil, false
 	}
 	info := f.Info()
@@ -117,6 +122,107 @@ func isRestoreSource(p *an.Prog, f *an.Fn, e ast.Expr, field string) (types.Obje
 	}
 	// tuple assignments  a, b, c := st.scope, st.context, st.content are covered by Assigns pairwise
 	return o, n > 0
+}
+
+// savedStructField: e is X.k where X is (a helper parameter bound to) a local of f whose only definition is a
+// composite literal — written in place or returned by a helper — with the element k: <runtime>.<field>.
+// Returns the local, the name under which the save is remembered ("X.k") and true.
+func savedStructField(p *an.Prog, f *an.Fn, e ast.Expr, field string) (types.Object, string, bool) {
+	sel, ok := an.Unparen(e).(*ast.SelectorExpr)
+	if !ok {
+		return nil, "", false
+	}
+	info := f.Info()
+	base, ok := an.Unparen(sel.X).(*ast.Ident)
+	if !ok {
+		return nil, "", false
+	}
+	obj := an.ObjOf(info, base)
+	// through a helper's parameter
+	for depth := 0; depth < 3; depth++ {
+		v, isVar := obj.(*types.Var)
+		if !isVar {
+			break
+		}
+		binds := p.HelperBinds(f)[v] // (a literal binds the parameters of the helpers it calls itself)
+		if len(binds) == 0 {
+			binds = p.HelperBinds(f.Root())[v]
+		}
+		if len(binds) != 1 {
+			break
+		}
+		id, ok := an.Unparen(binds[0].Arg).(*ast.Ident)
+		if !ok {
+			return nil, "", false
+		}
+		obj = an.ObjOf(info, id)
+	}
+	if obj == nil {
+		return nil, "", false
+	}
+	lit := savedStructLit(p, f, obj)
+	if lit == nil {
+		return nil, "", false
+	}
+	for _, el := range lit.Elts {
+		kv, ok := el.(*ast.KeyValueExpr)
+		if !ok {
+			continue
+		}
+		if k, ok := kv.Key.(*ast.Ident); ok && k.Name == sel.Sel.Name && p.FieldKey(info, kv.Value) == field {
+			return obj, an.RoleOf(obj) + "." + k.Name, true
+		}
+	}
+	return nil, "", false
+}
+
+// savedStructLit: the single composite literal that defines local obj (directly or as the only result of a helper).
+func savedStructLit(p *an.Prog, f *an.Fn, obj types.Object) *ast.CompositeLit {
+	var lit *ast.CompositeLit
+	n := 0
+	for _, d := range an.LocalDefs(f.Root(), obj) {
+		n++
+		if d == nil {
+			return nil
+		}
+		d = an.Unparen(d)
+		if u, ok := d.(*ast.UnaryExpr); ok && u.Op == token.AND {
+			d = an.Unparen(u.X)
+		}
+		if cl, ok := d.(*ast.CompositeLit); ok {
+			lit = cl
+			continue
+		}
+		if call, ok := d.(*ast.CallExpr); ok {
+			if h := p.NewHelperCallee(f.Root(), call); h != nil && h.Body != nil {
+				var rets []*ast.ReturnStmt
+				ast.Inspect(h.Body, func(m ast.Node) bool {
+					if _, isLit := m.(*ast.FuncLit); isLit {
+						return false
+					}
+					if r, ok := m.(*ast.ReturnStmt); ok {
+						rets = append(rets, r)
+					}
+					return true
+				})
+				if len(rets) == 1 && len(rets[0].Results) == 1 {
+					r := an.Unparen(rets[0].Results[0])
+					if u, ok := r.(*ast.UnaryExpr); ok && u.Op == token.AND {
+						r = an.Unparen(u.X)
+					}
+					if cl, ok := r.(*ast.CompositeLit); ok {
+						lit = cl
+						continue
+					}
+				}
+			}
+		}
+		return nil
+	}
+	if n != 1 {
+		return nil
+	}
+	return lit
 }
 
 // explorePairs runs the pairing exploration of one function.
@@ -215,6 +321,23 @@ func explorePairs(p *an.Prog, f *an.Fn) *pairResult {
 						st.Set("saved:"+pf, id.Name)
 					}
 				}
+				// … or into a struct that carries them:  saved := T{scope: st.scope, …}
+				if obj := an.ObjOf(info, id); obj != nil {
+					if lit := savedStructLit(p, f, obj); lit != nil {
+						for _, el := range lit.Elts {
+							if kv, ok := el.(*ast.KeyValueExpr); ok {
+								if k, ok := kv.Key.(*ast.Ident); ok {
+									efk := p.FieldKey(info, kv.Value)
+									for _, pf := range pairedFields {
+										if efk == pf && st.Get("cur:"+pf) == "" {
+											st.Set("saved:"+pf, an.RoleOf(obj)+"."+k.Name)
+										}
+									}
+								}
+							}
+						}
+					}
+				}
 				return
 			}
 			fk := p.FieldKey(info, lhs)
@@ -235,6 +358,10 @@ func explorePairs(p *an.Prog, f *an.Fn) *pairResult {
 					}
 					st.SetInt("cnt:"+pf, n)
 					if n == 0 {
+						// a counter brought back by a plain statement: put back on normal exits only
+						if st.Get("cur:"+pf) != "" {
+							res.plainRestore[pf] = lhs.Pos()
+						}
 						st.Set("cur:"+pf, "")
 					} else {
 						st.Set("cur:"+pf, fmt.Sprintf("counter%+d@%s", n, p.RelPos(lhs.Pos())))
@@ -248,7 +375,11 @@ func explorePairs(p *an.Prog, f *an.Fn) *pairResult {
 						// the exit of that very activation (it is the operand of a defer statement there); a closure
 						// that escapes (e.g. the content closure) runs later and must save for itself
 						_, isLocal := ownLocal(f, o)
-						if (!isLocal && deferredInParent(f)) || (isLocal && st.Get("saved:"+pf) == an.RoleOf(o)) {
+						savedAs := an.RoleOf(o)
+						if _, name, viaStruct := savedStructField(p, f, rhs, pf); viaStruct {
+							savedAs = name
+						}
+						if (!isLocal && deferredInParent(f)) || (isLocal && st.Get("saved:"+pf) == savedAs) {
 							if st.Get("cur:"+pf) != "" {
 								res.plainRestore[pf] = lhs.Pos()
 							}
